@@ -147,6 +147,92 @@ func init() {
 			return preflightReq("https://a.example.com", "GET", v, false)
 		}})
 	}
+	// n DISTINCT elements that look right one by one: lower-case, short, strictly increasing, unique - only their
+	// membership in the allowed set is wrong (lesson of seeded change C18-kb: tokenise everything first, judge afterwards)
+	seq := func(i int) string {
+		b := []byte("aaaaaa")
+		for k := len(b) - 1; k >= 0 && i > 0; k-- {
+			b[k] = byte('a' + i%26)
+			i /= 26
+		}
+		return string(b)
+	}
+	type kind = struct {
+		name     string
+		elements bool
+		mk       func(n int) Req
+	}
+	c18Reqs = append(c18Reqs,
+		kind{"preflight, ACRH with n distinct sorted short names on one line", true, func(n int) Req {
+			var sb strings.Builder
+			for i := 0; i < n; i++ {
+				if i > 0 {
+					sb.WriteByte(',')
+				}
+				sb.WriteString(seq(i))
+			}
+			return preflightReq("https://a.example.com", "PUT", []string{sb.String()}, false)
+		}},
+		kind{"preflight, ACRH with n distinct sorted short names after an allowed one, OWS around each", true, func(n int) Req {
+			var sb strings.Builder
+			sb.WriteString("authorization")
+			for i := 0; i < n; i++ {
+				sb.WriteString(", b")
+				sb.WriteString(seq(i))
+			}
+			return preflightReq("https://a.example.com", "PUT", []string{sb.String()}, false)
+		}},
+		kind{"preflight, n ACRH field lines with distinct sorted short names", true, func(n int) Req {
+			v := make([]string, n)
+			for i := range v {
+				v[i] = seq(i)
+			}
+			return preflightReq("https://a.example.com", "GET", v, false)
+		}})
+	// n field lines of the single-valued request headers, the later lines being copies / case variants / junk
+	// (lesson of seeded change C18-ka: comparing every further Origin line with the first, allocating per line)
+	for _, variant := range []string{"same", "upper", "alternating-case", "other-allowed", "junk"} {
+		variant := variant
+		line := func(first string, i int) string {
+			switch variant {
+			case "upper":
+				return strings.ToUpper(first)
+			case "alternating-case":
+				if i%2 == 1 {
+					return strings.ToUpper(first)
+				}
+				return first
+			case "other-allowed":
+				return strings.Replace(first, "a.example", "b"+seq(i)+".example", 1)
+			case "junk":
+				return "JUNK " + seq(i)
+			}
+			return first
+		}
+		lines := func(first string, n int) []string {
+			v := make([]string, n)
+			for i := range v {
+				v[i] = first
+				if i > 0 {
+					v[i] = line(first, i)
+				}
+			}
+			return v
+		}
+		c18Reqs = append(c18Reqs,
+			kind{fmt.Sprintf("actual GET, n Origin field lines (%s)", variant), true, func(n int) Req {
+				return Req{Method: "GET", Header: map[string][]string{hOrigin: lines("https://a.example.com", n)}}
+			}},
+			kind{fmt.Sprintf("preflight, n Origin field lines (%s)", variant), true, func(n int) Req {
+				return Req{Method: "OPTIONS", Header: map[string][]string{hOrigin: lines("https://a.example.com", n), hACRM: {"PUT"}, hACRH: {"x-listed-1"}}}
+			}},
+			kind{fmt.Sprintf("preflight, n ACRM field lines (%s)", variant), true, func(n int) Req {
+				return Req{Method: "OPTIONS", Header: map[string][]string{hOrigin: {"https://a.example.com"}, hACRM: lines("put", n), hACRH: {"x-listed-1"}}}
+			}},
+			kind{fmt.Sprintf("preflight, n ACRPN field lines (%s)", variant), true, func(n int) Req {
+				return Req{Method: "OPTIONS", Header: map[string][]string{hOrigin: {"https://a.example.com"}, hACRM: {"PUT"}, hACRPN: lines("true", n)}}
+			}})
+	}
 	// Origins are capped at a few hundred bytes: label-count families with fine-grained small sizes
 	for _, lab := range []string{"a.", "xn--9ca.", "xn--bcher-kva.", "1.", "a-b.", "x_y.", "abcdefghij."} {
 		lab := lab
@@ -210,7 +296,7 @@ const (
 
 func TestVerif_C18(t *testing.T) {
 	r := newRun(t, "C18")
-	r.Rule("configuration kinds {allow-all, discrete, `*` headers anonymous, anonymous+authorization, credentialed, PNA, PNA no-cors} x debug off/on x 70 request kinds (incl. label-count families of the Origin - plain, A-label, numeric, hyphen, underscore - at 12 fine-grained sizes below the Origin length cap), each with one attacker-sized field (Origin bytes / labels / field lines, ACRM bytes, ACRH bytes / elements / empty elements / OWS run / field lines; list elements and bytes drawn from lower-case, mixed-case, upper-case, non-token, non-ASCII, padded and long templates) x sizes 1..10^5 bytes and 1..10^4 elements (quick) or 14 sizes up to 10^6 bytes and 11 up to 10^5 elements (thorough). " +
+	r.Rule("configuration kinds {allow-all, discrete, `*` headers anonymous, anonymous+authorization, credentialed, PNA, PNA no-cors} x debug off/on x 93 request kinds (incl. label-count families of the Origin - plain, A-label, numeric, hyphen, underscore - at 12 fine-grained sizes below the Origin length cap), each with one attacker-sized field (Origin bytes / labels / field lines - copies, case variants, other allowed origins, junk -, ACRM bytes / field lines, ACRPN field lines, ACRH bytes / elements / distinct sorted well-formed names / empty elements / OWS run / field lines; list elements and bytes drawn from lower-case, mixed-case, upper-case, non-token, non-ASCII, padded and long templates) x sizes 1..10^5 bytes and 1..10^4 elements (quick) or 14 sizes up to 10^6 bytes and 11 up to 10^5 elements (thorough). " +
 		"Each cell is measured three times: the sized request repeated, the sized request alternating with an ordinary browser preflight (state carried from request to request), and the sized request with Vary and every Access-Control-* response header pre-set by an outer layer. evaluation = one AllocsPerRun measurement (runs+1 ServeHTTP calls or pairs) with a reusable minimal writer and a no-op handler on the plain build; oracle: allocations <= " + fmt.Sprint(c18Ceiling) + " at every size and allocations at any size <= (maximum over the two smallest sizes) + " + fmt.Sprint(c18Slack) + ". non-trivial = measurement at size >= 100, distinct by construction")
 	r.Assume("the harness's writer, handler and pre-built request allocate nothing per call; GOMAXPROCS(1) during the measurement (testing.AllocsPerRun)")
 	if r.Variant != "plain" {
